@@ -36,8 +36,9 @@ pub enum SqeKind {
 
 #[derive(Clone, Debug, Serialize, Deserialize)]
 pub enum Op {
-    /// push one SQE (user_data unique per scenario); `bad_flags` sets an unsupported flag
-    Push { ring: usize, ud: u64, kind: SqeKind, bad_flags: bool },
+    /// push one SQE (user_data unique per scenario); `bad_flags` != 0 sets that combination of squeue
+    /// flag bits, at least one of which the shim documents as unsupported
+    Push { ring: usize, ud: u64, kind: SqeKind, bad_flags: u8 },
     Submit { ring: usize },
     Advance { ns: u64 },
     /// cq.sync(), then iterate at most `max` entries (None = all visible)
@@ -89,7 +90,7 @@ struct Outstanding {
 
 struct RingM {
     depth: usize,
-    sq: Vec<(u64, SqeKind, bool, usize)>,
+    sq: Vec<(u64, SqeKind, u8, usize)>,
     out: Vec<Outstanding>,
     alive: bool,
 }
@@ -177,7 +178,14 @@ impl Property for C18 {
                         _ => SqeKind::Cancel { target: if pushed.is_empty() || rng.chance(1, 6) { 9999 } else { *rng.pick(&pushed) } },
                     };
                     pushed.push(ud);
-                    ops.push(Op::Push { ring, ud, kind, bad_flags: rng.chance(1, 25) });
+                    // FIXED_FILE=1 IO_DRAIN=2 IO_LINK=4 IO_HARDLINK=8 ASYNC=16 BUFFER_SELECT=32; ASYNC alone is supported
+                    let bad_flags = if rng.chance(1, 20) {
+                        let rejected = *rng.pick(&[1u8, 2, 4, 8, 32]);
+                        rejected | (rng.below(64) as u8 & if rng.bool() { 0 } else { 0x3f })
+                    } else {
+                        0
+                    };
+                    ops.push(Op::Push { ring, ud, kind, bad_flags });
                 }
                 1 => ops.push(Op::Submit { ring }),
                 2 => ops.push(Op::Advance {
@@ -213,13 +221,13 @@ impl Property for C18 {
             c.ops.truncate(k);
             c.ops.push(Op::Crash);
             // after the crash: try to submit/drain on fresh rings, touch the files again
-            c.ops.push(Op::Push { ring: 0, ud: 100_000, kind: SqeKind::Read { file: 0, off: 0, len: 16 }, bad_flags: false });
+            c.ops.push(Op::Push { ring: 0, ud: 100_000, kind: SqeKind::Read { file: 0, off: 0, len: 16 }, bad_flags: 0 });
             c.ops.push(Op::Submit { ring: 0 });
             v.push(c);
         }
         // the same workload as a host program inside a running simulation (AsyncFd::readable drain
         // loops, Sim::crash + Sim::bounce at a few step indices)
-        let pushes = base.ops.iter().filter(|o| matches!(o, Op::Push { kind: SqeKind::Read { .. } | SqeKind::Write { .. } | SqeKind::Fsync { .. }, bad_flags: false, .. })).count();
+        let pushes = base.ops.iter().filter(|o| matches!(o, Op::Push { kind: SqeKind::Read { .. } | SqeKind::Write { .. } | SqeKind::Fsync { .. }, bad_flags: 0, .. })).count();
         if pushes >= 2 {
             let tick_ms = 1 + base.fs_seed % 3;
             for crash in [0u32, 2, 3, 5, 9] {
@@ -274,7 +282,7 @@ impl Property for C18 {
         pre + &sc.ops
             .iter()
             .map(|o| match o {
-                Op::Push { kind, bad_flags, .. } => format!("push-{}{}", kind_name(kind), if *bad_flags { "!" } else { "" }),
+                Op::Push { kind, bad_flags, .. } => format!("push-{}{}", kind_name(kind), if *bad_flags != 0 { "!" } else { "" }),
                 Op::Submit { .. } => "submit".into(),
                 Op::Advance { .. } => "adv".into(),
                 Op::Drain { max, .. } => format!("drain{}", if max.is_some() { "-part" } else { "" }),
@@ -334,13 +342,9 @@ fn run_inner(sc: &Scenario, log: &mut Log, rep: &mut Report) -> Option<Violation
     let mut frozen_bufs: Vec<(usize, u64)> = Vec::new();
     let mut max_inflight = 0usize;
     let mut had_cancel_or_crash = false;
-    let min_for = |sc: &Scenario, k: &SqeKind| -> u64 {
-        match k {
-            // a page-cache hit completes after ~100ns
-            SqeKind::Read { .. } if sc.page_cache => sc.lat_min_ns.min(100),
-            _ => sc.lat_min_ns,
-        }
-    };
+    // reference page cache (all offsets lie in page 0 of their file; no eviction is configured): a page
+    // is cached once a ring read or ring write of the file has been submitted while the file was open
+    let mut cached: Vec<bool> = vec![false; nf];
 
     let mut all_ops: Vec<Op> = sc.ops.clone();
     // epilogue: let every latency elapse and drain everything
@@ -384,8 +388,15 @@ fn run_inner(sc: &Scenario, log: &mut Log, rep: &mut Report) -> Option<Violation
                     SqeKind::Cancel { target } => opcode::AsyncCancel::new(*target).build(),
                 }
                 .user_data(*ud);
-                if *bad_flags {
-                    e = e.flags(squeue::Flags::IO_LINK);
+                if *bad_flags != 0 {
+                    let all = [squeue::Flags::FIXED_FILE, squeue::Flags::IO_DRAIN, squeue::Flags::IO_LINK, squeue::Flags::IO_HARDLINK, squeue::Flags::ASYNC, squeue::Flags::BUFFER_SELECT];
+                    let mut f = squeue::Flags::empty();
+                    for (bit, fl) in all.iter().enumerate() {
+                        if bad_flags >> bit & 1 == 1 {
+                            f |= *fl;
+                        }
+                    }
+                    e = e.flags(f);
                 }
                 let res = w.entered(|| unsafe { r.submission().push(&e) });
                 let expect_ok = rm.sq.len() < rm.depth;
@@ -418,7 +429,7 @@ fn run_inner(sc: &Scenario, log: &mut Log, rep: &mut Report) -> Option<Violation
                     return Some(Violation::new("SubmitCount", format!("op #{i}: submit accepted {n} entries, {} were queued", rm.sq.len())));
                 }
                 for (ud, kind, bad, buf) in std::mem::take(&mut rm.sq) {
-                    if bad {
+                    if bad != 0 {
                         rm.out.push(Outstanding { ud, kind, bad_flags: true, earliest: now_ns, latest: now_ns, buf, fixed: Some(EINVAL) });
                         rep.probes.inc("unsupported_flags");
                         continue;
@@ -445,9 +456,23 @@ fn run_inner(sc: &Scenario, log: &mut Log, rep: &mut Report) -> Option<Violation
                             rm.out.push(Outstanding { ud, kind, bad_flags: false, earliest: now_ns, latest: now_ns, buf, fixed: Some(res) });
                         }
                         k => {
-                            let e = now_ns + min_for(sc, k);
-                            // (a page-cache hit costs ~100ns even when no io latency is configured)
-                            let l = now_ns + sc.lat_max_ns.max(sc.lat_min_ns).max(if sc.page_cache && matches!(k, SqeKind::Read { .. }) { 100 } else { 0 });
+                            let file_of = match k {
+                                SqeKind::Read { file, .. } | SqeKind::Write { file, .. } | SqeKind::Fsync { file } => *file % nf,
+                                SqeKind::Cancel { .. } => 0,
+                            };
+                            let open_now = handles[file_of].is_some();
+                            // a read that hits the page cache costs ~100ns whatever io latency is configured;
+                            // a cold read pays the full latency
+                            let hit = sc.page_cache && matches!(k, SqeKind::Read { .. }) && open_now && cached[file_of];
+                            if sc.page_cache && open_now && matches!(k, SqeKind::Read { .. } | SqeKind::Write { .. }) {
+                                if matches!(k, SqeKind::Read { .. }) && !cached[file_of] {
+                                    rep.probes.inc("cold_read_with_page_cache");
+                                }
+                                cached[file_of] = true;
+                            }
+                            let (lo, hi) = if hit { (100, 100) } else { (sc.lat_min_ns, sc.lat_max_ns.max(sc.lat_min_ns)) };
+                            let e = now_ns + lo;
+                            let l = now_ns + hi;
                             rm.out.push(Outstanding { ud, kind, bad_flags: false, earliest: e, latest: l, buf, fixed: None });
                         }
                     }
@@ -728,7 +753,7 @@ fn run_in_sim(sc: &Scenario, log: &mut Log, rep: &mut Report) -> Option<Violatio
         .ops
         .iter()
         .filter_map(|o| match o {
-            Op::Push { ud, kind: k @ (SqeKind::Read { .. } | SqeKind::Write { .. } | SqeKind::Fsync { .. }), bad_flags: false, .. } => Some((*ud, k.clone())),
+            Op::Push { ud, kind: k @ (SqeKind::Read { .. } | SqeKind::Write { .. } | SqeKind::Fsync { .. }), bad_flags: 0, .. } => Some((*ud, k.clone())),
             _ => None,
         })
         .collect();
